@@ -273,6 +273,27 @@ let () =
           let e = decode_event ev in
           let t = bytes_of_hex ts in
           Printf.printf "L %s\n" (hex_of_bytes (if fmt = "console" then render_console t e else render_logfmt t e))
+        | "C10STATES" :: _ ->
+          (* one access string per reachable product state (matcher row x reference state) *)
+          List.iter (fun ((acc, row), _) -> Printf.printf "S %s %d\n" (if acc = [] then "-" else hex_of_bytes acc) (int_of_n row))
+            (product_states env.e_proto_tbl);
+          print_string "END\n"
+        | "C10DIS" :: _ ->
+          (* strings OUTSIDE the known class on which the dumped table and the reference disagree
+             (last symbol 256 = end of datagram) *)
+          let on = function Some i -> string_of_int (int_of_n i) | None -> "none" in
+          List.iter (fun ((s, m), r) ->
+            Printf.printf "D %s %s %s\n" (String.concat "," (List.map (fun x -> string_of_int (int_of_n x)) s)) (on m) (on r))
+            (disagreements_k env.e_proto_tbl k0);
+          Printf.printf "OKS %d %d\n" (if product_ok env.e_proto_tbl k0 then 1 else 0)
+            (if product_ok_lax env.e_proto_tbl k0 then 1 else 0);
+          print_string "END\n"
+        | "C10" :: rest ->
+          (* reference identification and known-class membership of a payload *)
+          let p = bytes_of_hex (match rest with h :: _ -> h | [] -> "") in
+          let on = function Some i -> string_of_int (int_of_n i) | None -> "none" in
+          Printf.printf "X %s %s %d %d\n" (on (ref_udp p)) (on (ref_tcp p))
+            (if c10_class_payload false p then 1 else 0) (if c10_class_payload true p then 1 else 0)
         | "CLS" :: name :: f :: _ ->
           (* is the frame in the named class (known-finding class / coverage class)? *)
           let m = List.assoc name classes_env in
